@@ -177,12 +177,25 @@ byte_at = z3.Function("byte_at", z3.StringSort(), z3.IntSort(), z3.IntSort())
 _member = z3.Function("seq_member", Val, Val, z3.BoolSort())       # x in <list/tuple/set> (by ==)
 
 
+def member_unfold(x, c):
+    """x in c for a list/tuple/set: concatenations and literal stores are unfolded structurally"""
+    cs = c
+    if z3.is_app(cs) and cs.decl().name() == "seq_concat":
+        return z3.Or(member_unfold(x, cs.arg(0)), member_unfold(x, cs.arg(1)))
+    sc = z3.simplify(cs)
+    if z3.is_app(sc) and sc.decl().name() in ("VList", "VTuple") and z3.is_int_value(sc.arg(0)) and sc.arg(0).as_long() <= 6:
+        n = sc.arg(0).as_long()
+        at = sc.arg(1)
+        return z3.Or(*[py_eq(x, z3.simplify(z3.Select(at, z3.IntVal(j)))) for j in range(n)]) if n else z3.BoolVal(False)
+    return _member(x, c)
+
+
 def op_in(x, c, exact_items=None):
     """`x in c`.  exact_items: the element terms when c is a literal of known length."""
     if exact_items is not None:
         mem = z3.Or(*[py_eq(x, e) for e in exact_items]) if exact_items else z3.BoolVal(False)
     else:
-        mem = z3.And(_member(x, c), V.seq_len(c) > 0)
+        mem = z3.And(member_unfold(x, c), V.seq_len(c) > 0)
     key = to_key(x)
     return [
         (z3.And(V.is_dict(c), z3.Not(hashable(x))), rz(TypeError)),
